@@ -58,6 +58,9 @@ def check(run):
     private(R)
     once(R)
     writeonce(R)
+    from . import C06
+    with R.as_rule('C11.wireorder'):
+        C06.wiring(R)        # the shared deflate context is configured as negotiated (reset flags / windows not crossed)
     single(R)
     ctx(R)
     C03.rsv1gate(R, RID='C11.wireorder')
